@@ -74,6 +74,7 @@ func c18(r *core.Run) {
 
 	r.Rule("V1", "reference/data/delete vocabulary: prefix and suffix constants parse (with a placeholder id) to an object with exactly the members the unmarshalers and the store's valueObject declare; the delete-action literal is the same in service and store and uses the action constant; 'data' is the data-value member everywhere", 6)
 	r.Rule("V2", "envelopes: {result,resource,error}, {model,collection,query} and {get,call} have the same JSON member names in the service's response structs and the client package's parse structs", 3)
+	r.Rule("V6", "members the client does not declare are tolerated: the service's response envelopes may carry members (meta: status, header) that the client's Response struct does not declare; then the client package must not decode strictly (no json.Decoder.DisallowUnknownFields), otherwise such a response is classified as an internal error", 1)
 	r.Rule("V3", "decoders own their bytes: no UnmarshalJSON method of the library keeps (a slice or byte-slice conversion of) its input parameter in the receiver - the json.Unmarshaler contract lets the caller reuse the buffer, after which a retained alias changes the value's JSON and its equality", 3)
 	r.Rule("V4", "value classes are mutually exclusive: in the store's value parser every assignment of an object class (reference, delete action, data / primitive-in-data) happens on a path where exactly one of the members rid, action, data is known to be present and the other two are known to be absent - an object mixing them is invalid, not silently classified by whichever member is tested first", 3)
 	r.Rule("V5", "a published response reaches the client's parser (shared with C19.U1): the inbox SendRequest subscribes has room for a message and nothing but the deferred release ends or limits the interest (no AutoUnsubscribe / Drain / early Unsubscribe): a service may publish a pre-response before the response, and a subscription limited to one message delivers the pre-response only - the response is then reported as system.timeout instead of what the handler supplied", 2)
@@ -240,6 +241,43 @@ func c18(r *core.Run) {
 	}
 	for _, pr := range pairs {
 		r.Check(pr.a == pr.b && pr.a != "", "V2", pr.what, "service-members==client-members", "-", "both sides use {"+pr.a+"}", "service writes {"+pr.a+"} but the client parses {"+pr.b+"}")
+	}
+
+	// ---- V6: members the client does not declare are tolerated -------------------------
+	{
+		all := func(rel string, names ...string) map[string]bool {
+			set := map[string]bool{}
+			for _, n := range names {
+				if t := p.NamedType(rel, n); t != nil {
+					for _, ti := range jsonTags(t) {
+						set[ti.Key] = true
+					}
+				}
+			}
+			return set
+		}
+		svc := all("", "successResponse", "resourceResponse", "errorResponse")
+		cli := all("resprot", "Response")
+		var extra []string
+		for k := range svc {
+			if !cli[k] {
+				extra = append(extra, k)
+			}
+		}
+		sort.Strings(extra)
+		var strict []string
+		for _, fn := range p.FuncsOfPkg("resprot") {
+			for _, c := range core.Calls(fn) {
+				if cal := c.Common().StaticCallee(); cal != nil && cal.String() == "(*encoding/json.Decoder).DisallowUnknownFields" {
+					strict = append(strict, core.FuncName(fn)+" at "+p.InstrPos(c))
+				}
+			}
+		}
+		sort.Strings(strict)
+		r.Analysed["envelope_members_not_declared_by_client"] = len(extra)
+		r.Check(len(extra) == 0 || len(strict) == 0, "V6", "resprot.Response", "undeclared-envelope-members-tolerated", "-",
+			fmt.Sprintf("the service's envelopes carry %v beyond what the client declares; the client package uses no strict decoder, so they are ignored", extra),
+			fmt.Sprintf("the service's response envelopes carry the member(s) %v that the client's Response struct does not declare, and the client package decodes strictly (%s): a response with a status or header (meta) is rejected and classified as an internal error instead of the result, resource or error the handler sent", extra, strings.Join(strict, "; ")))
 	}
 
 	// ---- V3 --------------------------------------------------------------
